@@ -106,8 +106,8 @@ CHECKS = {
  "C16": dict(
     level="model_checking", ref="DESIGN.md §4 C16",
     technique="TLA+ spec OvniSort (property layer SortedStablePermutation/PrefixUntouched/Idempotent + implementation layer: region automaton, look-back ring, find_destination, stable re-sort, ring rebuild) checked by TLC for refinement over all small streams; exported streams replayed through ovnisort / ovnisort -c / ovniemu and random larger runs validated by OvniSortTrace.tla",
-    text="TLC explores every stream of <=6 events over 3-4 clock values with regions, jumbo events and several ring sizes (0.77M states quick, 9.8M thorough): Impl => Property, tightness of the look-back precondition, idempotence, four refuted negative configurations. ~7400 exported (stream, ring) pairs are materialised byte for byte and the tool's exit status, output order, size, untouched prefix, second run, check mode and emulator verdict compared with TLC's; random streams up to thousands of events and traces with two streams (the look-back ring must not leak between streams) are validated in the recorded direction; a third of all cases is written with clocks seconds apart (differences beyond 2^31 ns).",
-    note="Stability relies on glibc's merge-sort qsort; outside the preconditions the tool may leave the stream unsorted with exit 0 (Unspecified by the property); a second run may fail when the sorted stream no longer satisfies the look-back (file unchanged)."),
+    text="TLC explores every stream of <=6 events over 3-4 clock values with regions, jumbo events and several ring sizes (0.77M states quick, 9.8M thorough): Impl => Property, tightness of the look-back precondition, idempotence, five refuted negative configurations. ~7400 exported (stream, ring) pairs are materialised byte for byte and the tool's exit status, output order, size, untouched prefix, second run, check mode and emulator verdict compared with TLC's; random streams up to thousands of events and traces with two streams (the look-back ring must not leak between streams) are validated in the recorded direction; a third of all cases is written with clocks seconds apart (differences beyond 2^31 ns).",
+    note="Stability relies on glibc's merge-sort qsort; outside the preconditions the tool may fail; exit 0 always means a sorted stream (fixed defect c7e4054); a second run may fail when the sorted stream no longer satisfies the look-back (file unchanged)."),
 
  "C19": dict(
     level="exploration", ref="DESIGN.md §4 C19 (incl. its stated limit)",
